@@ -25,7 +25,7 @@ macro_rules! c11_find {
 }
 // @ob C11 quick find_n4 fns=UnixStr::find,buf_find bound="haystack and needle: all byte strings of length 0..=4 over 1..=255" timeout=600
 c11_find!(find_n4, 5, 7);
-// @ob C11 thorough find_n6 fns=UnixStr::find,buf_find bound="haystack and needle: all byte strings of length 0..=6 over 1..=255" timeout=2400
+// @ob C11 quick find_n6 fns=UnixStr::find,buf_find bound="haystack and needle: all byte strings of length 0..=6 over 1..=255" timeout=2400
 c11_find!(find_n6, 7, 9);
 
 macro_rules! c11_find_buf {
@@ -51,7 +51,7 @@ macro_rules! c11_find_buf {
 }
 // @ob C11 quick find_buf_n4 fns=UnixStr::find_buf,buf_find bound="haystack length 0..=4, needle any bytes of length 0..=4" timeout=600
 c11_find_buf!(find_buf_n4, 5, 7);
-// @ob C11 thorough find_buf_n6 fns=UnixStr::find_buf,buf_find bound="haystack length 0..=6, needle any bytes of length 0..=6" timeout=2400
+// @ob C11 quick find_buf_n6 fns=UnixStr::find_buf,buf_find bound="haystack length 0..=6, needle any bytes of length 0..=6" timeout=2400
 c11_find_buf!(find_buf_n6, 7, 9);
 
 macro_rules! c11_match_up_to {
@@ -75,7 +75,7 @@ macro_rules! c11_match_up_to {
 }
 // @ob C11 quick match_up_to_n5 fns=UnixStr::match_up_to bound="both operands: all byte strings of length 0..=5" timeout=600
 c11_match_up_to!(match_up_to_n5, 6, 8);
-// @ob C11 thorough match_up_to_n8 fns=UnixStr::match_up_to bound="both operands: all byte strings of length 0..=8" timeout=2400
+// @ob C11 quick match_up_to_n8 fns=UnixStr::match_up_to bound="both operands: all byte strings of length 0..=8" timeout=2400
 c11_match_up_to!(match_up_to_n8, 9, 11);
 
 macro_rules! c11_match_up_to_str {
@@ -108,7 +108,7 @@ macro_rules! c11_match_up_to_str {
 }
 // @ob C11 quick match_up_to_str_n5 fns=UnixStr::match_up_to_str bound="self: byte strings 0..=5; other: ASCII str (NUL allowed) of length 0..=5 in an exact-size allocation" timeout=600
 c11_match_up_to_str!(match_up_to_str_n5, 6, 8);
-// @ob C11 thorough match_up_to_str_n8 fns=UnixStr::match_up_to_str bound="as quick, lengths 0..=8" timeout=2400
+// @ob C11 quick match_up_to_str_n8 fns=UnixStr::match_up_to_str bound="as quick, lengths 0..=8" timeout=2400
 c11_match_up_to_str!(match_up_to_str_n8, 9, 11);
 
 macro_rules! c11_ends_with {
@@ -133,7 +133,7 @@ macro_rules! c11_ends_with {
 }
 // @ob C11 quick ends_with_n5 fns=UnixStr::ends_with bound="both operands: all byte strings of length 0..=5" timeout=600
 c11_ends_with!(ends_with_n5, 6, 8);
-// @ob C11 thorough ends_with_n8 fns=UnixStr::ends_with bound="both operands: all byte strings of length 0..=8" timeout=2400
+// @ob C11 quick ends_with_n8 fns=UnixStr::ends_with bound="both operands: all byte strings of length 0..=8" timeout=2400
 c11_ends_with!(ends_with_n8, 9, 11);
 
 macro_rules! c11_file_name {
@@ -167,7 +167,7 @@ macro_rules! c11_file_name {
 }
 // @ob C11 quick file_name_n5 fns=UnixStr::path_file_name bound="all byte strings of length 0..=5" timeout=600
 c11_file_name!(file_name_n5, 6, 8);
-// @ob C11 thorough file_name_n8 fns=UnixStr::path_file_name bound="all byte strings of length 0..=8" timeout=2400
+// @ob C11 quick file_name_n8 fns=UnixStr::path_file_name bound="all byte strings of length 0..=8" timeout=2400
 c11_file_name!(file_name_n8, 9, 11);
 
 /// join definition: empty operand -> the other one; otherwise left minus one trailing '/', one '/', right minus one leading '/'.
@@ -215,7 +215,7 @@ macro_rules! c11_join {
 }
 // @ob C11 quick join_n3 fns=UnixStr::path_join bound="both operands: all byte strings of length 0..=3" timeout=900
 c11_join!(join_n3, 4, 10);
-// @ob C11 thorough join_n5 fns=UnixStr::path_join bound="both operands: all byte strings of length 0..=5" timeout=2400
+// @ob C11 quick join_n5 fns=UnixStr::path_join bound="both operands: all byte strings of length 0..=5" timeout=2400
 c11_join!(join_n5, 6, 14);
 
 /// parent definition: split at the last separator. The root's child has parent "/"; a string without
@@ -266,5 +266,5 @@ macro_rules! c11_parent {
 }
 // @ob C11 quick parent_n5 fns=UnixStr::parent_path bound="all byte strings of length 0..=5" timeout=600
 c11_parent!(parent_n5, 6, 8);
-// @ob C11 thorough parent_n8 fns=UnixStr::parent_path bound="all byte strings of length 0..=8" timeout=2400
+// @ob C11 quick parent_n8 fns=UnixStr::parent_path bound="all byte strings of length 0..=8" timeout=2400
 c11_parent!(parent_n8, 9, 11);
